@@ -158,6 +158,7 @@ Section Norm.
   Lemma s_div_ok a b : wsort a = true -> wsort b = true -> ok (s_div a b) (eval_op2 DIV (ev a) (ev b)).
   Proof.
     start2 s_div. brk; facts; [by_lemma div_1_r|]. brk; facts; [by_lemma div_0_r|].
+    brk; facts; [by_lemma div_0_l|].
     destruct (shl_one b) as [y|] eqn:Sb; [|dflt].
     apply shl_one_eq in Sb. subst b. cbn [wsort] in Hb. apply andb_true_iff in Hb. destruct Hb as [Hy _].
     unfold ok. cbn [wsort evalw eval_op2]. rewrite Hy, Ha. split; [reflexivity|].
@@ -165,12 +166,15 @@ Section Norm.
   Qed.
 
   Lemma s_sdiv_ok a b : wsort a = true -> wsort b = true -> ok (s_sdiv a b) (eval_op2 SDIV (ev a) (ev b)).
-  Proof. start2 s_sdiv. brk; facts; [by_lemma sdiv_1_r|]. brk; facts; [by_lemma sdiv_0_r|dflt]. Qed.
+  Proof.
+    start2 s_sdiv. brk; facts; [by_lemma sdiv_1_r|]. brk; facts; [by_lemma sdiv_0_r|].
+    brk; facts; [by_lemma sdiv_0_l|dflt].
+  Qed.
 
   Lemma s_mod_ok a b : wsort a = true -> wsort b = true -> ok (s_mod a b) (eval_op2 MOD (ev a) (ev b)).
   Proof.
     start2 s_mod. brk; facts; [by_lemma mod_1_r|]. brk; facts; [by_lemma mod_0_r|].
-    brk; facts; [by_lemma mod_diag|dflt].
+    brk; facts; [by_lemma mod_diag|]. brk; facts; [by_lemma mod_0_l|dflt].
   Qed.
 
   Lemma s_smod_ok a b : wsort a = true -> wsort b = true -> ok (s_smod a b) (eval_op2 SMOD (ev a) (ev b)).
@@ -208,8 +212,22 @@ Section Norm.
     brk; facts.
     { destruct (s_iszero_ok b Hb) as [S E3]. split; [exact S|]. rewrite E3. cbn [evalw eval_op2].
       symmetry. apply eq_0_iszero. }
-    brk; facts; [|dflt].
-    split; [exact Hb|]. cbn [evalw eval_op2]. symmetry. apply eq_1_bool. apply is_boolt_sound. assumption.
+    brk; facts.
+    { split; [exact Hb|]. cbn [evalw eval_op2]. symmetry. apply eq_1_bool. apply is_boolt_sound. assumption. }
+    destruct (inner XOR b) as [[x y]|] eqn:I1.
+    { apply inner_eq in I1. subst b. cbn [wsort] in Hb. apply andb_true_iff in Hb. destruct Hb as [Hx Hy].
+      brk; facts.
+      - destruct (s_iszero_ok y Hy) as [S E5]. split; [exact S|]. rewrite E5. cbn [evalw eval_op2].
+        symmetry. apply eq_xor_self.
+      - brk; facts; [|dflt]. destruct (s_iszero_ok x Hx) as [S E6]. split; [exact S|]. rewrite E6.
+        cbn [evalw eval_op2]. symmetry. apply eq_xor_self_r. }
+    destruct (inner XOR a) as [[x y]|] eqn:I2; [|dflt].
+    apply inner_eq in I2. subst a. cbn [wsort] in Ha. apply andb_true_iff in Ha. destruct Ha as [Hx Hy].
+    brk; facts.
+    - destruct (s_iszero_ok y Hy) as [S E5]. split; [exact S|]. rewrite E5. cbn [evalw eval_op2].
+      rewrite eq_comm. symmetry. apply eq_xor_self.
+    - brk; facts; [|dflt]. destruct (s_iszero_ok x Hx) as [S E6]. split; [exact S|]. rewrite E6.
+      cbn [evalw eval_op2]. rewrite eq_comm. symmetry. apply eq_xor_self_r.
   Qed.
 
   Lemma s_shift_ok o a b : (o = SHL \/ o = SHR \/ o = SAR) -> wsort a = true -> wsort b = true ->
@@ -391,6 +409,8 @@ Section Norm.
     unfold disj. intros H H1 H2 x.
     rewrite (split_addr_sound a1 H1), (split_addr_sound a2 H2).
     destruct (split_addr a1) as [b1 c1]. destruct (split_addr a2) as [b2 c2]. cbn [fst snd].
+    apply orb_true_iff in H. destruct H as [H|H].
+    { apply orb_true_iff in H. destruct H as [H|H]; apply Z.eqb_eq in H; lia. }
     repeat (apply andb_true_iff in H; destruct H as [H ?]).
     apply same_base_eq in H. rewrite <- H.
     repeat match goal with
@@ -492,13 +512,48 @@ Section Norm.
     split; [exact Hv|]. rewrite <- RE. cbn [evals]. symmetry. apply sstore_same.
   Qed.
 
+  Lemma drop_same_sound a m : msort m = true -> wsort a = true ->
+    msort (drop_same a m) = true /\
+    (forall x, ~ (ev a <= x < ev a + 32) -> evalm r (drop_same a m) x = evalm r m x).
+  Proof.
+    intros Hm Ha.
+    induction m as [z|n0|k|k|k a1 _|o a1 _|o a1 _ a2 _|o a1 _ a2 _ a3 _|m0 _ a1 _|s0 _ k _|m0 _ a1 _ a2 _
+                   | |m0 IH a1 _ v _|m0 IH a1 _ v _| |s0 _ k _ v _]; try discriminate Hm.
+    - split; [reflexivity|intros; reflexivity].
+    - cbn [msort] in Hm. apply andb_true_iff in Hm. destruct Hm as [Hm Hv].
+      apply andb_true_iff in Hm. destruct Hm as [Hm Ha1]. destruct (IH Hm) as [IS IE].
+      cbn [drop_same]. destruct (term_eqb a a1) eqn:D.
+      + apply term_eqb_eq in D. subst a1. split; [exact IS|]. intros x Hx. rewrite IE by exact Hx.
+        cbn [evalm]. symmetry. apply mstore_other. exact Hx.
+      + split; [cbn [msort]; rewrite IS, Ha1, Hv; reflexivity|].
+        intros x Hx. cbn [evalm]. unfold mstore. rewrite IE by exact Hx. reflexivity.
+    - cbn [msort] in Hm. apply andb_true_iff in Hm. destruct Hm as [Hm Hv].
+      apply andb_true_iff in Hm. destruct Hm as [Hm Ha1]. destruct (IH Hm) as [IS IE].
+      cbn [drop_same]. destruct (term_eqb a a1) eqn:D.
+      + apply term_eqb_eq in D. subst a1. split; [exact IS|]. intros x Hx. rewrite IE by exact Hx.
+        cbn [evalm]. symmetry. apply mstore8_other. lia.
+      + split; [cbn [msort]; rewrite IS, Ha1, Hv; reflexivity|].
+        intros x Hx. cbn [evalm]. unfold mstore8. rewrite IE by exact Hx. reflexivity.
+  Qed.
+
+  Lemma mstore_drop_same m a v : msort m = true -> wsort a = true ->
+    forall x, mstore (evalm r (drop_same a m)) (ev a) v x = mstore (evalm r m) (ev a) v x.
+  Proof.
+    intros Hm Ha x. destruct (drop_same_sound a m Hm Ha) as [_ E].
+    destruct (Z_le_dec (ev a) x) as [H1|H1]; [destruct (Z_lt_dec x (ev a + 32)) as [H2|H2]|].
+    - rewrite !mstore_in by lia. reflexivity.
+    - rewrite !mstore_other by lia. apply E. lia.
+    - rewrite !mstore_other by lia. apply E. lia.
+  Qed.
+
   Lemma s_mstore_ok m a v : msort m = true -> wsort a = true -> wsort v = true ->
     msort (s_mstore m a v) = true /\
     (forall x, evalm r (s_mstore m a v) x = mstore (evalm r m) (ev a) (ev v) x).
   Proof.
-    intros Hm Ha Hv.
-    assert (D : msort (MStore m a v) = true /\ (forall x, evalm r (MStore m a v) x = mstore (evalm r m) (ev a) (ev v) x)).
-    { cbn [msort evalm]. rewrite Hm, Ha, Hv. split; [reflexivity|intros; reflexivity]. }
+    intros Hm Ha Hv. destruct (drop_same_sound a m Hm Ha) as [DS _].
+    assert (D : msort (MStore (drop_same a m) a v) = true /\
+                (forall x, evalm r (MStore (drop_same a m) a v) x = mstore (evalm r m) (ev a) (ev v) x)).
+    { cbn [msort evalm]. rewrite DS, Ha, Hv. split; [reflexivity|]. intros x. apply mstore_drop_same; assumption. }
     destruct v as [z|n0|k|k|k a1|o a1|o a1 a2|o a1 a2 a3|m0 a1|s0 k|m0 a1 a2| |m0 a1 v0|m0 a1 v0| |s0 k v0];
       try exact D.
     cbn [s_mstore]. destruct (term_eqb a a1 && term_eqb m0 (relevant 32 a m)) eqn:Q; [|exact D].
@@ -509,13 +564,32 @@ Section Norm.
     symmetry. apply mstore_mload_same. apply (evalm_wf r m Hr Hm).
   Qed.
 
+  Lemma drop_same_s_sound k s : ssort s = true -> wsort k = true ->
+    ssort (drop_same_s k s) = true /\
+    (forall x, x <> ev k -> evals r (drop_same_s k s) x = evals r s x).
+  Proof.
+    intros Hs Hk.
+    induction s as [z|n0|k0|k0|k0 a1 _|o a1 _|o a1 _ a2 _|o a1 _ a2 _ a3 _|m0 _ a1 _|s0 _ k0 _|m0 _ a1 _ a2 _
+                   | |m0 _ a1 _ v _|m0 _ a1 _ v _| |s0 IH k0 _ v _]; try discriminate Hs.
+    - split; [reflexivity|intros; reflexivity].
+    - cbn [ssort] in Hs. apply andb_true_iff in Hs. destruct Hs as [Hs Hv].
+      apply andb_true_iff in Hs. destruct Hs as [Hs Hk0]. destruct (IH Hs) as [IS IE].
+      cbn [drop_same_s]. destruct (term_eqb k k0) eqn:D.
+      + apply term_eqb_eq in D. subst k0. split; [exact IS|]. intros x Hx. rewrite IE by exact Hx.
+        cbn [evals]. symmetry. apply sstore_other. exact Hx.
+      + split; [cbn [ssort]; rewrite IS, Hk0, Hv; reflexivity|].
+        intros x Hx. cbn [evals]. unfold sstore. rewrite IE by exact Hx. reflexivity.
+  Qed.
+
   Lemma s_sstore_ok s k v : ssort s = true -> wsort k = true -> wsort v = true ->
     ssort (s_sstore s k v) = true /\
     (forall x, evals r (s_sstore s k v) x = sstore (evals r s) (ev k) (ev v) x).
   Proof.
-    intros Hs Hk Hv.
-    assert (D : ssort (SStore s k v) = true /\ (forall x, evals r (SStore s k v) x = sstore (evals r s) (ev k) (ev v) x)).
-    { cbn [ssort evals]. rewrite Hs, Hk, Hv. split; [reflexivity|intros; reflexivity]. }
+    intros Hs Hk Hv. destruct (drop_same_s_sound k s Hs Hk) as [DS DE].
+    assert (D : ssort (SStore (drop_same_s k s) k v) = true /\
+                (forall x, evals r (SStore (drop_same_s k s) k v) x = sstore (evals r s) (ev k) (ev v) x)).
+    { cbn [ssort evals]. rewrite DS, Hk, Hv. split; [reflexivity|]. intros x. unfold sstore.
+      destruct (Z.eqb_spec x (ev k)); [reflexivity|]. apply DE. assumption. }
     destruct v as [z|n0|k0|k0|k0 a1|o a1|o a1 a2|o a1 a2 a3|m0 a1|s0 k0|m0 a1 a2| |m0 a1 v0|m0 a1 v0| |s0 k0 v0];
       try exact D.
     cbn [s_sstore]. destruct (term_eqb k k0 && term_eqb s0 (relevant_s k s)) eqn:Q; [|exact D].
